@@ -1,5 +1,6 @@
 import SciVerif.Lemmas.StuckCore
 import SciVerif.Lemmas.Net
+import SciVerif.Lemmas.NetSlots
 import SciVerif.Lemmas.Slots
 import SciVerif.Props.C16
 import SciVerif.Props.C08
@@ -35,6 +36,10 @@ and whether it returned; channel occupancy is the difference of two counters):
 * `c05_network_deadlock_root_cause`: for *any* stream lengths, a run that ends with an unreturned process
   contains an abandoned port (a returned consumer that left ≥ B items of an unreturned producer unread):
   F20's mechanism is the only way such a network fails to complete.
+* `c05_network_with_slots_no_deadlock` / `_complete`: the same two statements for the model in which every
+  task waits for `cores v` of `max` slots, runs, releases them and only then offers `Done`, with
+  head-of-queue forwarding (`Model/NetSlots.lean`) — by projecting stuck states onto the counting model; the
+  abstraction "a created task always becomes forwardable" is thereby a theorem, given `cores v ≤ max`.
 Negatives at network level: `c05_network_unbalanced_deadlocks` (F20: a process stops reading at the
 first closed in-port; the other upstream then blocks forever), `c05_network_needs_buffer` (F18, B = 0).
 
@@ -128,6 +133,58 @@ theorem c05_network_deadlock_root_cause {n : Nat} (net : Net n) (hac : acyclic n
   stuck_root_cause net hac hB s (run_inv0 net ls _ _ (inv0_init net) hr) hmax v0 hv0
 
 open SciVerif.Net in
+def netChain2 (N B : Nat) : Net 2 :=
+  { ins := fun v => if v.val = 1 then [⟨0, by omega⟩] else [], src := fun _ => N, B := B }
+
+/-! ### the network with task execution and slots -/
+open SciVerif.Net in
+/-- with tasks that wait for slots, run, release and only then offer `Done` (head-of-queue forwarding):
+a reachable state with an unreturned process always has an enabled step, for every slot configuration in
+which no process asks for more cores than the workflow has -/
+theorem c05_network_with_slots_no_deadlock {n : Nat} (sn : SNet n) (N : Nat) (hbal : balanced sn.net N)
+    (hac : acyclic sn.net) (hB : 1 ≤ sn.net.B) (hcores : ∀ v, sn.cores v ≤ sn.max)
+    (ls : List (SLbl n)) (s : SSt n) (hr : srun sn (sinit n) ls = some s)
+    (v : Fin n) (hv : s.base.term v = false) : ∃ l s', sstep sn s l = some s' := by
+  have hinv := srun_inv sn N hbal ls _ _ (sinv_init sn N) hr
+  apply Classical.byContradiction
+  intro hno
+  have hst : sstuck sn s := by
+    intro l
+    cases h : sstep sn s l with
+    | none => rfl
+    | some s' => exact absurd ⟨l, s', h⟩ hno
+  have := no_stuck sn.net N hbal hac hB s.base hinv.base (sstuck_proj sn N hcores s hinv hst) v
+  simp [hv] at this
+
+open SciVerif.Net in
+/-- every run is finite, and one that cannot be extended ends with every process returned after exactly
+`N` tasks, every queue empty and no slot in use -/
+theorem c05_network_with_slots_complete {n : Nat} (sn : SNet n) (N : Nat) (hbal : balanced sn.net N)
+    (hac : acyclic sn.net) (hB : 1 ≤ sn.net.B) (hcores : ∀ v, sn.cores v ≤ sn.max)
+    (ls : List (SLbl n)) (s : SSt n) (hr : srun sn (sinit n) ls = some s) :
+    ls.length ≤ 3 * (n * (2 * N + 1)) ∧
+    (sstuck sn s → ∀ v, s.base.term v = true ∧ s.base.c v = N ∧ s.base.f v = N ∧ s.q v = []) := by
+  have hinv := srun_inv sn N hbal ls _ _ (sinv_init sn N) hr
+  constructor
+  · have := srun_mu sn N hbal ls _ _ (sinv_init sn N) hr
+    rw [muS_init] at this
+    omega
+  · intro hst v
+    have ht := no_stuck sn.net N hbal hac hB s.base hinv.base (sstuck_proj sn N hcores s hinv hst) v
+    have hcf := hinv.base.tm v ht
+    refine ⟨ht, hcf.1, hcf.2, ?_⟩
+    have := hinv.len v
+    exact List.eq_nil_of_length_eq_zero (by omega)
+
+open SciVerif.Net in
+/-- negative: a process asking for more cores than the workflow has blocks for ever (this is why
+`Process.Run` rejects it before creating any task — C07) -/
+theorem c05_network_oversize_blocks :
+    (srun { net := netChain2 1 1, cores := fun _ => 3, max := 2 } (sinit 2) [.create ⟨0, by omega⟩]).map
+      (fun s => ((List.finRange 2).all fun v => (sstep { net := netChain2 1 1, cores := fun _ => 3, max := 2 } s (.start v 0)).isNone,
+                 s.q ⟨0, by omega⟩)) = some (true, [.waiting]) := by decide
+
+open SciVerif.Net in
 /-- two sources feeding one process (diamond without the top) -/
 def netJoin (a b B : Nat) : Net 3 :=
   { ins := fun v => if v.val = 2 then [⟨0, by omega⟩, ⟨1, by omega⟩] else [],
@@ -155,9 +212,6 @@ theorem c05_network_unbalanced_deadlocks :
       (fun s => (stuckB (netJoin 3 0 1) s, s.term ⟨0, by omega⟩, s.f ⟨0, by omega⟩, s.c ⟨0, by omega⟩)) =
       some (true, false, 1, 3) := by decide
 
-open SciVerif.Net in
-def netChain2 (N B : Nat) : Net 2 :=
-  { ins := fun v => if v.val = 1 then [⟨0, by omega⟩] else [], src := fun _ => N, B := B }
 
 open SciVerif.Net in
 /-- negative (F18): with rendezvous channels (B = 0) in the counting model's reading of a send, the
@@ -172,6 +226,9 @@ end SciVerif.C05
 #print axioms SciVerif.C05.c05_network_runs_are_finite
 #print axioms SciVerif.C05.c05_network_complete
 #print axioms SciVerif.C05.c05_network_deadlock_root_cause
+#print axioms SciVerif.C05.c05_network_with_slots_no_deadlock
+#print axioms SciVerif.C05.c05_network_with_slots_complete
+#print axioms SciVerif.C05.c05_network_oversize_blocks
 #print axioms SciVerif.C05.c05_network_unbalanced_deadlocks
 #print axioms SciVerif.C05.c05_network_needs_buffer
 #print axioms SciVerif.C05.c05_run_waits_for_driver_and_sink
